@@ -836,6 +836,22 @@ class RawConn:
     async def sendall(self, data):
         await self.loop.sock_sendall(self.sock, data)
 
+    async def wait_acked(self, cap):
+        """True once the socket's send queue is empty (SIOCOUTQ = 0: everything written has been acknowledged by the peer)."""
+        import fcntl
+        import termios
+        t0 = time.monotonic()
+        while True:
+            try:
+                left = struct.unpack("i", fcntl.ioctl(self.sock.fileno(), termios.TIOCOUTQ, b"\0\0\0\0"))[0]
+            except OSError:
+                return False
+            if left == 0:
+                return True
+            if time.monotonic() - t0 > cap:
+                return False
+            await asyncio.sleep(0.01)
+
     def shutdown_wr(self):
         try:
             self.sock.shutdown(socket.SHUT_WR)
@@ -1138,7 +1154,11 @@ class TcpFlow:
             if self.ended[side]:
                 return      # the peer's end was already observed; closing now is not an event of the script
         self.closed[side] = how
-        self._ev("AppClose" if side == "app" else "TgtClose", how=how)
+        extra = {}
+        if how == "rst" and side == "tgt":
+            # has the server's kernel acknowledged everything the target wrote?  (bounded wait; only then is the answer owed)
+            extra["acked"] = await conn.wait_acked(1.5)
+        self._ev("AppClose" if side == "app" else "TgtClose", how=how, **extra)
         if how == "fin":
             conn.shutdown_wr()
         elif how == "rst":
